@@ -3,7 +3,7 @@
    generator (generated_pairs). *)
 From Coq Require Import ZArith List Bool Lia.
 From Coq Require Import Floats.SpecFloat.
-From NGS Require Import Val Ints PyrScales PyrScalesProofs PyrKeys PyrTiling PyrTilingProofs PyrCompute.
+From NGS Require Import Val Ints PyrScales PyrScalesProofs PyrKeys PyrKeysProofs PyrTiling PyrTilingProofs PyrCompute.
 Import ListNotations.
 Open Scope Z_scope.
 Ltac Zify.zify_post_hook ::= Z.to_euclidean_division_equations.
@@ -111,29 +111,6 @@ Fixpoint keys_nodup (l : list (list N)) : bool :=
   | k :: r => negb (existsb (bytes_eqb k) r) && keys_nodup r
   end.
 
-(* "the generator accepts the description, its keys are pairwise distinct, the
-   pyramid computation finishes without error on the generated scales, and the
-   last level differs from the previous level downscaled once" *)
-Definition silent_wrong_run (ds : t3 -> arr -> arr) (full : t3) (res : fl * fl * fl)
-           (target : Z) (data : list Z) : bool :=
-  match gen_scales full res target 0 with
-  | Ok scales =>
-      let geos := map geo_of_scale scales in
-      let lvl0 := arr_of_list 1 full data in
-      keys_nodup (map so_key scales) &&
-      match pyramid ds 0 1 geos lvl0, rev geos with
-      | Ok levels, s1 :: s0 :: _ =>
-          match rev (lvl0 :: levels) with
-          | last :: prev :: _ =>
-              negb (list_eqb (list_of_arr last)
-                             (list_of_arr (ds (factors (geom_of 1 s0 s1)) prev)))
-          | _ => false
-          end
-      | _, _ => false
-      end
-  | _ => false
-  end.
-
 (* "some consecutive pair of generated scales is outside compat" *)
 Definition generated_pair_bad (full : t3) (res : fl * fl * fl) (target : Z) : bool :=
   match gen_scales full res target 0 with
@@ -144,13 +121,23 @@ Definition generated_pair_bad (full : t3) (res : fl * fl * fl) (target : Z) : bo
 Definition gp_full : t3 := (65, 5, 1).
 Definition gp_res : fl * fl * fl := ((1%positive, 0), (1%positive, 3), (1%positive, 5)).   (* 1 : 8 : 32 nm *)
 
-(* the generator's own output for 65 x 5 x 1 voxels at 1:8:32 nm with target
-   chunk size 4 reaches the silent class at its last transition: the pyramid
-   computation raises nothing and writes wrong voxels *)
-Lemma generated_pairs_refuted :
+(* the former silent-wrong generator output (65 x 5 x 1 voxels at 1:8:32 nm,
+   target 4): the generated pairs are still not all compat, but the pyramid
+   computation now refuses the last transition (ValueError) instead of writing
+   wrong voxels *)
+Definition pyramid_outcome_is_value_error (ds : t3 -> arr -> arr) (full : t3) (res : fl * fl * fl)
+           (target : Z) (data : list Z) : bool :=
+  match gen_scales full res target 0 with
+  | Ok scales =>
+      match pyramid ds 0 1 (map geo_of_scale scales) (arr_of_list 1 full data) with
+      | Crash ValueError => true | _ => false end
+  | _ => false
+  end.
+
+Example former_generated_witness_refused :
   generated_pair_bad gp_full gp_res 4 = true /\
-  silent_wrong_run ds_stride gp_full gp_res 4 (levels 325) = true /\
-  silent_wrong_run ds_avg gp_full gp_res 4 (levels 325) = true.
+  pyramid_outcome_is_value_error ds_stride gp_full gp_res 4 (levels 325) = true /\
+  pyramid_outcome_is_value_error ds_avg gp_full gp_res 4 (levels 325) = true.
 Proof. vm_compute. repeat split; reflexivity. Qed.
 
 (* inside the guard the composition is fine: if every generated pair is
@@ -295,4 +282,74 @@ Proof.
       constructor; assumption.
 Qed.
 
+(* a pyramid computation that does not raise went through compat pairs only *)
+Lemma pyramid_ok_pairs_compat : forall ch scales lvl out,
+  all_pairs_ok geom_pos ch scales = true ->
+  pyramid ds poison ch scales lvl = Ok out ->
+  all_pairs_ok compat ch scales = true.
+Proof.
+  intros ch scales. induction scales as [|s0 rest IH]; intros lvl out Hp H; [reflexivity|].
+  destruct rest as [|s1 rest']; [reflexivity|].
+  cbn [all_pairs_ok] in Hp |- *. apply andb_true_iff in Hp. destruct Hp as [Hp0 Hp].
+  rewrite pyramid_cons2 in H.
+  destruct (next_level ds poison ch s0 s1 lvl) as [nl| | | | | |k] eqn:Hn; cbn [bind] in H; try discriminate.
+  destruct (pyramid ds poison ch (s1 :: rest') nl) as [r| | | | | |k] eqn:Hr; cbn [bind] in H; try discriminate.
+  apply andb_true_iff. split; [|exact (IH nl r Hp Hr)].
+  unfold next_level in Hn.
+  destruct (tile_level ds (geom_of ch s0 s1) lvl) as [chunks| | | | | |k] eqn:Ht; cbn [bind] in Hn; try discriminate.
+  exact (ok_is_compat ds ds_shape (geom_of ch s0 s1) lvl chunks Hp0 Ht).
+Qed.
+
+(* C06 for the level loop, without any guard: on scales with positive sizes,
+   compute_dyadic_scales either raises or produces, at every level, the whole
+   previous level downscaled once *)
+Theorem pyramid_sound : forall ch scales lvl lvl' out,
+  all_pairs_ok geom_pos ch scales = true ->
+  (forall s0, hd_error scales = Some s0 -> a_sh lvl = sg_size s0) -> a_c lvl = ch ->
+  arr_eq lvl lvl' ->
+  pyramid ds poison ch scales lvl = Ok out ->
+  Forall2 arr_eq out (pyramid_ref ds scales lvl').
+Proof.
+  intros ch scales lvl lvl' out Hp Hsh Hch Heq H.
+  pose proof (pyramid_ok_pairs_compat ch scales lvl out Hp H) as Hc.
+  destruct (pyramid_exact ch scales lvl lvl' Hc Hsh Hch Heq) as [out' [Ho HF]].
+  rewrite H in Ho. inversion Ho; subst out'. exact HF.
+Qed.
+
 End Loop.
+
+(* ---------- generated pairs: exact or error ---------- *)
+
+Lemma all_pairs_geom_pos : forall ch (l : list scale_geo), 0 < ch ->
+  (forall s, In s l -> (forall a, 0 < get3 a (sg_size s)) /\ (forall a, 0 < get3 a (sg_chunk s))) ->
+  all_pairs_ok geom_pos ch l = true.
+Proof.
+  intros ch l Hch. induction l as [|s0 rest IH]; intro H; [reflexivity|].
+  destruct rest as [|s1 rest']; [reflexivity|]. cbn [all_pairs_ok]. apply andb_true_iff. split.
+  - destruct (H s0 (or_introl eq_refl)) as [A0 B0].
+    destruct (H s1 (or_intror (or_introl eq_refl))) as [A1 B1].
+    unfold geom_pos, geom_of. cbn [g_os g_ns g_oc g_nc g_ch]. rewrite !andb_true_iff.
+    repeat split; try (apply forall3_spec; intro a; apply Z.ltb_lt; auto). apply Z.ltb_lt. exact Hch.
+  - apply IH. intros s Hs. apply H. right. exact Hs.
+Qed.
+
+(* Composition with the scale generator: for EVERY description the generator
+   accepts, every number of channels and every level-0 array, the pyramid
+   computation on the generated scales is classified exact-or-error: if it does
+   not raise, every level is the whole previous level downscaled once. *)
+Theorem generated_pairs : forall ds poison,
+  ds_shape_prop ds -> ds_local_prop ds -> ds_ext_prop ds ->
+  forall full res target ms scales ch lvl out,
+  gen_scales full res target ms = Ok scales -> 0 < ch ->
+  (forall s0, hd_error (map geo_of_scale scales) = Some s0 -> a_sh lvl = sg_size s0) ->
+  a_c lvl = ch ->
+  pyramid ds poison ch (map geo_of_scale scales) lvl = Ok out ->
+  Forall2 arr_eq out (pyramid_ref ds (map geo_of_scale scales) lvl).
+Proof.
+  intros ds poison Hs Hl He full res target ms scales ch lvl out Hg Hch Hsh Hc H.
+  apply (pyramid_sound ds poison Hs Hl He ch _ lvl lvl out); try assumption.
+  - apply all_pairs_geom_pos; [exact Hch|]. intros s Hin. apply in_map_iff in Hin.
+    destruct Hin as [so [<- Hso]]. exact (gen_scales_scale_pos _ _ _ _ _ _ Hg Hso).
+  - repeat split; reflexivity.
+Qed.
+
